@@ -504,6 +504,19 @@ theorem block_then_late_add_answers_it (s : Tower) (node : Node) (b height : Nat
   rw [storeAppointment_mem] at this
   exact this
 
+/-- non-vacuity of `double_submit_charged_once` / `topup_and_charge_commute`: a registered user with 3
+slots submits a 2049-byte blob twice (locator not in the cache): accepted both times, 1 slot left
+both times; a renewal before or after the charge gives 4 -/
+example :
+    let cfg : Cfg := { slots := 3, duration := 10, grace := 3 }
+    let node : Node := { send := fun _ => .ok, get := fun _ => .rpc (-5) }
+    let s := (register cfg (boot Db.empty 100 []) 7).1
+    let r1 := addAppointment s node (some 7) 4 (.junk 1 2049) 0 0
+    let r2 := addAppointment r1.1 node (some 7) 4 (.junk 1 2049) 0 0
+    s.mem.cache.get 4 = none ∧ r1.2.1 = .accepted 100 0 1 110 ∧ r2.2.1 = .accepted 100 0 1 110 ∧
+    ((addUpdateAppointment (addUpdateUser cfg s 7).1 7 (4, 7) 2049).1.mem.users 7).map (·.slots) = some 4 ∧
+    ((addUpdateUser cfg (addUpdateAppointment s 7 (4, 7) 2049).1 7).1.mem.users 7).map (·.slots) = some 4 := by decide +kernel
+
 /-- **no_orphan_record**: an appointment cannot be inserted for a user that is gone, a tracker
 cannot be inserted without its appointment, and removing a user removes everything it owns -/
 theorem no_orphan_record (d : Db) (k : Uuid) (a : Appt) (t : Tracker) :
